@@ -386,11 +386,17 @@ class ComposedNode(ConfigNode):
         if self._delete is not None and self._allow_new is not None and self._safe is not None:
             return
 
+        # when nothing is inherited, children of a container that deletes by default (a list)
+        # keep the implicit flag they are given on construction (see _get_child_kwargs)
+        implicit_delete = self._implicit_delete
+        if implicit_delete is None and self._default_delete:
+            implicit_delete = True
+
         for child in self._children.values():
             fix = False
             if self._delete is None:
-                if child._implicit_delete != self._implicit_delete:
-                    child._implicit_delete = self._implicit_delete
+                if child._implicit_delete != implicit_delete:
+                    child._implicit_delete = implicit_delete
                     fix = True
             if self._allow_new is None:
                 if child._implicit_allow_new != self._implicit_allow_new:
